@@ -127,7 +127,8 @@ Qed.
 (* ---------- L4 ---------- *)
 
 Definition rel4w (gl : gsm Z) (gr : gsm R) : Prop :=
-  g_token gl = g_token gr /\ g_fresh gl = g_fresh gr /\ g_mode gl = g_mode gr /\
+  g_token gl = g_token gr /\ g_fresh gl = g_fresh gr /\ g_accum gl = g_accum gr /\
+  g_mode gl = g_mode gr /\
   g_stack gl = g_stack gr /\ (g_mode gl < length modes)%nat /\
   Forall (fun m => (m < length modes)%nat) (g_stack gl).
 
@@ -137,15 +138,15 @@ Definition rel4 (gl : gsm Z) (gr : gsm R) : Prop :=
 Lemma rel4_reset : forall gl gr,
   rel4w gl gr -> rel4 (g_reset Z (fun _ => 0) gl) (g_reset R rstart gr).
 Proof.
-  intros gl gr (Ht & Hf & Hm & Hs & Hlt & Hst).
-  unfold rel4, rel4w, g_reset. cbn [g_token g_state g_fresh g_mode g_stack].
+  intros gl gr (Ht & Hf & Ha & Hm & Hs & Hlt & Hst).
+  unfold rel4, rel4w, g_reset. cbn [g_token g_state g_fresh g_accum g_mode g_stack].
   split.
   - repeat split; try assumption; try reflexivity. lia.
   - apply closed_start. lia.
 Qed.
 
-Ltac g_cbn := cbn [g_token g_state g_fresh g_mode g_stack].
-Ltac g_cbn_all := cbn [g_token g_state g_fresh g_mode g_stack] in *.
+Ltac g_cbn := cbn [g_token g_state g_fresh g_accum g_mode g_stack].
+Ltac g_cbn_all := cbn [g_token g_state g_fresh g_accum g_mode g_stack] in *.
 
 (* NOTE: when the code is lexError or lexEOF only [rel4w] is claimed: an action
    list that changes the mode and then falls through (or fails a pop) keeps
@@ -162,23 +163,27 @@ Theorem equiv_step : forall gl gr r,
   end.
 Proof.
   intros gl gr r Hrel Hr.
-  destruct gl as [tok s f md st]. destruct gr as [tok' rs f' md' st'].
-  destruct Hrel as [(Ht & Hf & Hm & Hs & Hlt & Hst) Hvis]. g_cbn_all. subst tok' f' md' st'.
+  destruct gl as [tok s f a md st]. destruct gr as [tok' rs f' a' md' st'].
+  destruct Hrel as [(Ht & Hf & Ha & Hm & Hs & Hlt & Hst) Hvis]. g_cbn_all. subst tok' f' a' md' st'.
   destruct (closed_pair _ _ _ Hvis) as [vt [vr [Et [Er [Hflag [Hacts Hstep]]]]]].
-  rewrite (g_push_rune_eq Z (table_auto modes) (fun _ => 0) (length modes) tok s f md st vt r Et).
-  rewrite (g_push_rune_eq R RA rstart (length modes) tok rs f md st vr r Er).
+  rewrite (g_push_rune_eq Z (table_auto modes) (fun _ => 0) (length modes) tok s f a md st vt r Et).
+  rewrite (g_push_rune_eq R RA rstart (length modes) tok rs f a md st vr r Er).
   rewrite <- Hflag, <- Hacts.
   assert (Hact :
     match
-      match g_out Z (fun _ => 0) tok s f (act_spec (length modes) (v_acts vt) md st) with
+      match (if f then GFall Z (Build_gsm Z tok s f a md st)
+             else g_out Z (fun _ => 0) tok s f a (act_spec (length modes) (v_acts vt) md st)) with
       | GCrash _ => None
       | GReturn _ c l' => Some (c, l')
-      | GFall _ l' => if g_fresh l' && (r =? -1) then Some (lexEOF, l') else Some (lexError, l')
+      | GFall _ l' => if g_fresh l' && (r =? -1) && negb (g_accum l')
+                      then Some (lexEOF, l') else Some (lexError, l')
       end,
-      match g_out R rstart tok rs f (act_spec (length modes) (v_acts vt) md st) with
+      match (if f then GFall R (Build_gsm R tok rs f a md st)
+             else g_out R rstart tok rs f a (act_spec (length modes) (v_acts vt) md st)) with
       | GCrash _ => None
       | GReturn _ c l' => Some (c, l')
-      | GFall _ l' => if g_fresh l' && (r =? -1) then Some (lexEOF, l') else Some (lexError, l')
+      | GFall _ l' => if g_fresh l' && (r =? -1) && negb (g_accum l')
+                      then Some (lexEOF, l') else Some (lexError, l')
       end
     with
     | None, None => True
@@ -186,23 +191,31 @@ Proof.
       c = c' /\ rel4w gl' gr' /\ (c <> lexError -> c <> lexEOF -> rel4 gl' gr')
     | _, _ => False
     end).
-  { pose proof (act_spec_inv (length modes) (v_acts vt) md st Hlt Hst) as Hinv.
+  { destruct f.
+    { g_cbn.
+      assert (Hw : rel4w (Build_gsm Z tok s true a md st) (Build_gsm R tok rs true a md st)).
+      { unfold rel4w; g_cbn. repeat split; assumption. }
+      destruct (true && (r =? -1) && negb a).
+      + split; [reflexivity|]. split; [exact Hw|]. intros _ Hc. exfalso. apply Hc. reflexivity.
+      + split; [reflexivity|]. split; [exact Hw|]. intros Hc. exfalso. apply Hc. reflexivity. }
+    pose proof (act_spec_inv (length modes) (v_acts vt) md st Hlt Hst) as Hinv.
     destruct (act_spec (length modes) (v_acts vt) md st) as [|m' st'|c tk m' st'|m' st'];
       cbn [g_out]; [exact I| | |]; destruct Hinv as [Hm' Hst'].
     - split; [reflexivity|]. split.
       + unfold rel4w; g_cbn. repeat split; assumption.
       + intros Hc. exfalso. apply Hc. reflexivity.
     - split; [reflexivity|].
-      assert (Hw : rel4w (Build_gsm Z match tk with Some p => p | None => tok end 0 true m' st')
-                         (Build_gsm R match tk with Some p => p | None => tok end (rstart m') true m' st')).
+      assert (Hw : rel4w (Build_gsm Z match tk with Some p => p | None => tok end 0 true
+                                    (c =? lexTryAgain) m' st')
+                         (Build_gsm R match tk with Some p => p | None => tok end (rstart m') true
+                                    (c =? lexTryAgain) m' st')).
       { unfold rel4w; g_cbn. repeat split; assumption. }
       split; [exact Hw|]. intros _ _. split; [exact Hw|]. g_cbn. apply closed_start. exact Hm'.
     - g_cbn.
-      assert (Hw : rel4w (Build_gsm Z tok s f m' st') (Build_gsm R tok rs f m' st')).
+      assert (Hw : rel4w (Build_gsm Z tok s false a m' st') (Build_gsm R tok rs false a m' st')).
       { unfold rel4w; g_cbn. repeat split; assumption. }
-      destruct (f && (r =? -1)).
-      + split; [reflexivity|]. split; [exact Hw|]. intros _ Hc. exfalso. apply Hc. reflexivity.
-      + split; [reflexivity|]. split; [exact Hw|]. intros Hc. exfalso. apply Hc. reflexivity. }
+      cbn [andb].
+      split; [reflexivity|]. split; [exact Hw|]. intros Hc. exfalso. apply Hc. reflexivity. }
   destruct (v_flag vt) eqn:Efl; [exact Hact|].
   (* a boundary representative for r *)
   assert (Hm1 : In (-1) (row_pts vt vr)).
@@ -225,7 +238,7 @@ Proof.
   destruct (lookup Z (v_trans vt) b) as [s'|]; destruct (lookup R (v_trans vr) b) as [r'|];
     try contradiction; [|exact Hact].
   destruct Hstep as [Hs' Hvis'].
-  assert (Hw : rel4w (Build_gsm Z tok s' false md st) (Build_gsm R tok r' false md st)).
+  assert (Hw : rel4w (Build_gsm Z tok s' false a md st) (Build_gsm R tok r' false a md st)).
   { unfold rel4w; g_cbn. repeat split; assumption. }
   split; [reflexivity|]. split; [exact Hw|]. intros _ _. split; [exact Hw|]. g_cbn. exact Hvis'.
 Qed.
@@ -233,7 +246,6 @@ Qed.
 (* ---------- L5 ---------- *)
 
 Hypothesis Hwf : modes_wf modes = true.
-Hypothesis Hprog : forallb mode_progress_ok modes = true.
 
 Theorem equiv_lex_ref : forall fuel inp,
   (forall r w, In (r, w) inp -> 0 <= r <= 1114111) ->
@@ -286,15 +298,15 @@ Proof.
 Qed.
 
 Theorem decode_lex : forall modes fuel inp,
-  modes_wf modes = true -> forallb mode_progress_ok modes = true ->
+  modes_wf modes = true ->
   lex_tables modes fuel inp = g_lex Z (table_auto modes) (fun _ => 0) (length modes) fuel inp.
 Proof.
-  intros modes fuel inp Hwf Hprog. unfold lex_tables, g_lex.
+  intros modes fuel inp Hwf. unfold lex_tables, g_lex.
   apply (lex_input_bisim _ _ _ _ _ _ _ _
            (fun l gl => rel_sm l gl /\ sm_inv modes l) (fun _ => True)).
   - exact I.
   - intros l gl r [Hrel [Hm [Hs Hst]]] _.
-    pose proof (push_rune_decode modes l gl r Hwf Hprog Hrel Hm Hs Hst) as H.
+    pose proof (push_rune_decode modes l gl r Hwf Hrel Hm Hs Hst) as H.
     destruct (push_rune modes l r) as [[c l']|];
       destruct (g_push_rune Z (table_auto modes) (fun _ => 0) (length modes) gl r) as [[c' gl']|];
       try contradiction.
@@ -305,12 +317,12 @@ Proof.
     + intros _. split.
       * destruct Hrel' as (Ht & _ & _ & Hstk & _).
         unfold rel_sm, sm_reset, g_reset.
-        cbn [sm_token sm_state sm_mode sm_stack g_token g_state g_fresh g_mode g_stack].
+        cbn [sm_token sm_state sm_consumed sm_accum sm_mode sm_stack g_token g_state g_fresh g_accum g_mode g_stack].
         repeat split; assumption.
       * apply sm_inv_reset; [exact Hwf|]. split; assumption.
   - split; [|apply sm_inv_init; exact Hwf].
     unfold rel_sm, sm_init, g_init.
-    cbn [sm_token sm_state sm_mode sm_stack g_token g_state g_fresh g_mode g_stack].
+    cbn [sm_token sm_state sm_consumed sm_accum sm_mode sm_stack g_token g_state g_fresh g_accum g_mode g_stack].
     repeat split.
   - intros; exact I.
 Qed.
@@ -320,12 +332,12 @@ Theorem equiv_lex : forall (R : Type) (reqb : R -> R -> bool) (modes : list (lis
     (RA : nat -> R -> option (view R)) (rstart : nat -> R) (visited : list (pair R)),
   (forall a b, reqb a b = true <-> a = b) ->
   closed R reqb modes RA rstart visited = true ->
-  modes_wf modes = true -> forallb mode_progress_ok modes = true ->
+  modes_wf modes = true ->
   forall fuel inp, (forall r w, In (r, w) inp -> 0 <= r <= 1114111) ->
   lex_tables modes fuel inp = g_lex R RA rstart (length modes) fuel inp.
 Proof.
-  intros R reqb modes RA rstart visited Hreqb Hclosed Hwf Hprog fuel inp Hinp.
-  rewrite (decode_lex modes fuel inp Hwf Hprog).
+  intros R reqb modes RA rstart visited Hreqb Hclosed Hwf fuel inp Hinp.
+  rewrite (decode_lex modes fuel inp Hwf).
   apply (equiv_lex_ref R reqb modes RA rstart visited Hreqb Hclosed Hwf fuel inp Hinp).
 Qed.
 Print Assumptions equiv_step.
